@@ -63,7 +63,7 @@ class Func:
 
 
 class Program:
-    def __init__(self, repo, canonical=True):
+    def __init__(self, repo, canonical=True, restore=True):
         self.repo = repo
         self.canonical = canonical
         self.root = os.path.join(repo, 'src')
@@ -119,6 +119,14 @@ class Program:
         if canonical:
             from .inline import normalise_calls
             self.call_stats = normalise_calls(self)
+            if restore:
+                import json as _json
+                from .alpha import restore_names
+                bp = os.path.join(os.path.dirname(os.path.abspath(__file__)), 'baseline_funcs.json')
+                if os.path.exists(bp):
+                    ref = _json.load(open(bp)).get('locals')
+                    if ref:
+                        self.call_stats['functions_renamed'] = restore_names(self, ref)
 
     # ------------------------------------------------------------------ registry
     def _collect(self, m, cls, body, prefix, parent, path):
